@@ -351,6 +351,6 @@ def subsets_body(c):
 
 def subchecks(tier):
     return [
-        Sub("random", body, strategy=zoo_case, quick=1500, thorough=20000, pretags=pretags, raising_is_failure=False),
+        Sub("random", body, strategy=zoo_case, quick=1500, thorough=60000, pretags=pretags, raising_is_failure=False),
         Sub("all_subsets", subsets_body, enumerate=subset_cases, expand=expand_subsets, exhaustive=False, pretags=pretags, raising_is_failure=False),
     ]
